@@ -95,7 +95,7 @@ package netconf
 //@   modifies keys(d.subscriptions), alloc()
 //@ func (*Driver).read [C08]
 //@   maintains RI(d.Channel.Q)
-//@   requires d.messages != nil && d.subscriptions != nil && netconfPatternsInstance != nil
+//@   requires d.messages != nil && d.subscriptions != nil
 //@   requires d.errs != d.Channel.Q.depthChan && d.done != d.Channel.Q.depthChan
 //@   requires (d.SelectedVersion == "1.0" || d.SelectedVersion == "1.1") && d.Channel.PromptPattern == (d.SelectedVersion == "1.1" ? netconfPatternsInstance.v1Dot1Delim : netconfPatternsInstance.v1Dot0Delim)
 //@   modifies d.Channel.Q.queue, d.Channel.Q.depth, chan(d.Channel.Q.depthChan), chan(d.errs), chan(d.done), chan(d.Channel.Errs), keys(d.messages), keys(d.subscriptions), bHead, rd, alloc()
@@ -104,3 +104,14 @@ package netconf
 //@   at call Sleep#* assert #unfinished-input-is-kept !reMatch(d.Channel.PromptPattern, bHead ++ rb) ==> b == bHead ++ rb
 //@   at call Sleep#* assert #a-complete-message-is-filed-under-its-id-and-the-buffer-restarts reMatch(d.Channel.PromptPattern, bHead ++ rb) && !contains(bHead ++ rb, "</rpc>") ==> len(b) == 0 && (msgID(bHead ++ rb) != 0 ==> has(d.messages, msgID(bHead ++ rb)) && get(d.messages, msgID(bHead ++ rb)) == bHead ++ rb)
 //@   at call Sleep#* assert #after-an-echo-only-the-part-behind-the-first-delimiter-is-kept reMatch(d.Channel.PromptPattern, bHead ++ rb) && contains(bHead ++ rb, "</rpc>") ==> b == reSplit(d.Channel.PromptPattern, bHead ++ rb, 2)[1]
+
+// ---- C08 / C09: Open starts the reader only after the version is settled, with the delimiter of that version ----------------
+//@ func (*Driver).processServerCapabilities
+//@   noverify
+//@   requires RI(d.Channel.Q)
+//@   ensures RI(d.Channel.Q)
+//@   modifies d.serverCapabilities, d.sessionID, rd, d.Channel.Q.queue, d.Channel.Q.depth, chan(d.Channel.Q.depthChan), quiet, alloc()
+//@ func (*Driver).Open [C08 C09]
+//@   requires RI(d.Channel.Q) && d.Channel.Errs != d.Channel.Q.depthChan && d.errs != d.Channel.Q.depthChan && d.done != d.Channel.Q.depthChan
+//@   requires d.messages != nil && d.subscriptions != nil
+//@   ensures #reader-started-only-on-success-with-a-settled-version result == nil ==> (d.SelectedVersion == "1.0" || d.SelectedVersion == "1.1")
